@@ -21,27 +21,38 @@ with `regSound`; `ancestors`, `get_depth`, `is_ancestor` and the calculated xpat
 PROVED FOR ALL STATES / ARGUMENTS / FUEL (no admissibility hypothesis is needed: the repaired
 `_attach` itself rejects a node that would end up at two positions):
   inv_init, inv_step_new, inv_step_attach, inv_step_detach (both `only_self` variants),
-  inv_step_dup (both `as_detached_clone` variants), and for receivers that have no parent
-  inv_step_replace_partial, inv_step_rwith_partial; inv_run_partial lifts them over histories.
+  inv_step_dup (both `as_detached_clone` variants),
+  inv_step_replace  -- ANY receiver: attached root, detached node, or a child of a parent; in the last
+                       case the proof goes through the invariant "with one hole" (Props/LegacyReplace.lean:
+                       clearParent_invX opens it, replaceChild_some_inv closes it) and the
+                       `_reset_content_id` walk (resetContentId_inv: the single stale content id moves one
+                       node up per step until the root is reached = "changes propagate to all ancestors");
+  inv_step_rwith_partial          `replace_with`, receiver without a parent, new = None or a detached node;
+  inv_step_rwith_parent_partial   `replace_with`, receiver WITH a parent, new = a detached node, under the
+                                  hypothesis that the parent is not a descendant of the receiver (`¬ Desc s u p`:
+                                  no cycle through the receiver);
+  inv_run_partial lifts all of them over histories.
+The only side conditions are well-formedness of the request (`LOp.proved`): child-field names of a new
+class instance are distinct and a single (required / optional) field holds at most one node.
 
 PARTIAL — full statements (kept visible here, not proved):
 
-  theorem inv_step_replace : Inv Hc s → step H Hc s (.replace u ch) = (s', out) → out.isOk → Inv Hc s'
   theorem inv_step_rwith   : Inv Hc s → step H Hc s (.rwith u new) = (s', out) → out.isOk → Inv Hc s'
   theorem inv_run          : Inv Hc (run H Hc init ops)          -- given every step returned ok
 
-  What is missing: the branch "receiver has a parent" of `replace` / `replace_with` (clear parent,
-  detach, re-create / attach the new node, `_replace_child` with its index shift, the conditional
-  `_reset_content_id` walk up the ancestors) passes through states in which the parent holds a
-  detached child, i.e. outside `Inv`; it needs a version of every lemma below for the invariant
-  "with one hole".  Likewise `replace_with` an ATTACHED root (its children's parent ids dangle while
-  the ids are swapped).  The transform visitor and `ASTTransformer.execute` are compositions of
-  these operations driven by user callbacks; they are not modelled in Lean.  All of these branches
-  are exercised on every run by the K1 differential (model = real code, full state dump after
-  every operation) and by the invariant oracle evaluated on the real objects (harness/props/c18.py).
+  What is missing for `replace_with`: (1) receiver with a parent and `new = None`: the variant of
+  `_replace_child` that REMOVES the child (index shift of the later siblings); (2) `new` = an ATTACHED root: its
+  children's parent ids dangle while the ids are swapped (outside `noDangling`); (3) dropping `¬ Desc s u p`: on a
+  heap with a cycle through the receiver the `detach` of its subtree runs into the parent; one has to show that
+  such a run does not end (fuel) -- `detachGo_desc` (a run only unregisters descendants) is the available half.
+  The transform visitor and `ASTTransformer.execute` are compositions of these operations driven by user
+  callbacks; they are not modelled in Lean.  All of these branches are exercised on every run by the K1
+  differential (model = real code, full state dump after every operation) and by the invariant oracle
+  evaluated on the real objects (harness/props/c18.py).
 -/
 import PyOak.Props.LegacyDetach
 import PyOak.Props.LegacyConstruct
+import PyOak.Props.LegacyReplace
 namespace PyOak.Legacy.C18
 open PyOak PyOak.Legacy LState
 
@@ -49,7 +60,7 @@ variable (H Hc : Str → Str)
 
 /-- the empty world satisfies the invariant -/
 theorem inv_init : Inv Hc init := by
-  refine ⟨?_, ?_, ?_, ?_, ?_, ?_⟩
+  refine ⟨?_, ?_, ?_, ?_, ?_, ?_, ?_, ?_⟩
   · intro k u h; simp [init, LState.lookup, regGet] at h
   · intro u h; simp [Att, init, LState.lookup, regGet] at h
   · intro u h; simp [Att, init, LState.lookup, regGet] at h
@@ -58,6 +69,12 @@ theorem inv_init : Inv Hc init := by
     have : (init.obj u).pid = none := rfl
     rw [this] at h; cases h
   · intro u hu; simp [init] at hu
+  · intro u h
+    have : init.parent u = none := rfl
+    rw [this] at h; cases h
+  · intro u
+    have : (init.obj u).fields = [] := rfl
+    unfold LObj.wf; rw [this]; simp
 
 /-- the request refers to existing objects only (checked by `step`) -/
 theorem refs_lt {s : LState} {op : LOp} (h : (op.refs.any fun u => decide (s.size ≤ u)) = false) :
@@ -67,7 +84,7 @@ theorem refs_lt {s : LState} {op : LOp} (h : (op.refs.any fun u => decide (s.siz
   simp at this; omega
 
 /-- construction over existing children (any flags, any kind of children) -/
-theorem inv_step_new {s s' : LState} {sp : NewSpec} {out : LOut} (hI : Inv Hc s)
+theorem inv_step_new {s s' : LState} {sp : NewSpec} {out : LOut} (hI : Inv Hc s) (hwf : (newObj sp).wf)
     (h : step H Hc s (.new sp) = (s', out)) (hok : out.isOk = true) : Inv Hc s' := by
   unfold step at h
   split at h
@@ -82,7 +99,7 @@ theorem inv_step_new {s s' : LState} {sp : NewSpec} {out : LOut} (hI : Inv Hc s)
       | error e => simp [ofNode] at h; obtain ⟨_, rfl⟩ := h; simp [LOut.isOk] at hok
       | ok n =>
         simp [ofNode] at h; obtain ⟨rfl, _⟩ := h
-        exact (construct_inv H Hc hI (fun c hc' => hlt c (by simpa [LOp.refs] using hc')) hc).1
+        exact (construct_inv H Hc hI (fun c hc' => hlt c (by simpa [LOp.refs] using hc')) hwf hc).1
 
 /-- `attach()` -/
 theorem inv_step_attach {s s' : LState} {u : Nat} {out : LOut} (hI : Inv Hc s)
@@ -142,7 +159,7 @@ theorem inv_step_dup {s s' : LState} {u : Nat} {clone : Bool} {out : LOut} (hI :
 /-- `replace(**changes)` on a receiver that has no parent (an attached root or a detached node).
 (Full statement without `hroot`: see the header — not proved.) -/
 theorem inv_step_replace_partial {s s' : LState} {u : Nat} {ch : Changes} {out : LOut} (hI : Inv Hc s)
-    (hroot : s.parent u = none)
+    (hroot : s.parent u = none) (hwf : ch.wfFor (s.obj u))
     (h : step H Hc s (.replace u ch) = (s', out)) (hok : out.isOk = true) : Inv Hc s' := by
   unfold step at h
   split at h
@@ -209,12 +226,37 @@ theorem inv_step_replace_partial {s s' : LState} {u : Nat} {ch : Changes} {out :
               rw [← hf2 u]
               exact List.mem_flatMap.mpr ⟨f0, hf0, hcf⟩
             exact hI.closed u hu c this
-        obtain ⟨hI3, _, _⟩ := construct_inv H Hc hI2 hkids hc
+        have hwf2 : ch.wfFor (s2.obj u) := by unfold Changes.wfFor; rw [hf2 u]; exact hwf
+        obtain ⟨hI3, _, _⟩ := construct_inv H Hc hI2 hkids (applyFields_wf (hI2.wf u) hwf2 _ rfl) hc
         have hfin : Inv Hc (s3.modify n fun x => { x with origId := (s3.obj u).origId, collWith := (s3.obj u).collWith }) :=
           inv_modify_meta Hc hI3 n _ _
         simp [ofNode] at h
         obtain ⟨rfl, _⟩ := h
         exact hfin
+
+/-- **`replace(**changes)`**, any receiver: attached root, attached child of a parent (the parent's
+field is updated, the change of content id propagates to all ancestors), or detached node -/
+theorem inv_step_replace {s s' : LState} {u : Nat} {ch : Changes} {out : LOut} (hI : Inv Hc s)
+    (hwf : ch.wfFor (s.obj u))
+    (h : step H Hc s (.replace u ch) = (s', out)) (hok : out.isOk = true) : Inv Hc s' := by
+  cases hp : s.parent u with
+  | none => exact inv_step_replace_partial H Hc hI hp hwf h hok
+  | some p =>
+    unfold step at h
+    split at h
+    · cases h; simp [LOut.isOk] at hok
+    · next hr =>
+      simp only at h
+      have hlt := refs_lt (by simpa using hr)
+      cases hc : replace H Hc (fuelOf s) s u ch with
+      | mk s1 res =>
+        rw [hc] at h
+        cases res with
+        | error e => simp [ofNode] at h; obtain ⟨_, rfl⟩ := h; simp [LOut.isOk] at hok
+        | ok n =>
+          simp [ofNode] at h; obtain ⟨rfl, _⟩ := h
+          exact replace_inv_parent H Hc hI (hlt u (by simp [LOp.refs])) hp
+            (fun c hc' => hlt c (by simp only [LOp.refs, List.mem_cons]; exact .inr hc')) hwf hc
 
 /-- `replace_with(new)` on a receiver that has no parent, `new` being `None` or a detached node.
 (Full statement without `hroot` / `hnew`: see the header — not proved.) -/
@@ -276,7 +318,7 @@ theorem inv_step_rwith_partial {s s' : LState} {u : Nat} {new : Option Nat} {out
           have hto : (takeOver s1 u n).1 = s1.modify n (fun x => { x with origId := some x.id, id := s1.idOf u }) := by
             unfold takeOver; simp [hdet1]
           have hI2 : Inv Hc (takeOver s1 u n).1 := by
-            rw [hto]; exact inv_modify_unregistered Hc hI1 hreg _ (.inr rfl) hpid
+            rw [hto]; exact inv_modify_unregistered Hc hI1 hreg _ (.inr rfl) hpid (hI1.wf n) (fun _ _ hx => hx.elim)
           have hsz2 : (takeOver s1 u n).1.size = s1.size := by rw [hto]; rfl
           cases hat : attach Hc (fuelOf s) (takeOver s1 u n).1 n with
           | mk s3 r3 =>
@@ -294,27 +336,62 @@ theorem inv_step_rwith_partial {s s' : LState} {u : Nat} {new : Option Nat} {out
               · simp [ofUnit] at h; obtain ⟨_, rfl⟩ := h; simp [LOut.isOk] at hok
               · simp [ofUnit] at h; obtain ⟨_, rfl⟩ := h; simp [LOut.isOk] at hok
 
+/-- `replace_with(new)` on a receiver that HAS a parent, `new` a detached node, provided the parent is
+not a descendant of the receiver (no cycle through the receiver).
+(Full statement: see the header — `new = None`, an attached `new`, and cyclic heaps are not proved.) -/
+theorem inv_step_rwith_parent_partial {s s' : LState} {u p n : Nat} {out : LOut} (hI : Inv Hc s)
+    (hpar : s.parent u = some p) (hnd : s.detached n = true) (hacyc : ¬ Desc s u p)
+    (h : step H Hc s (.rwith u (some n)) = (s', out)) (hok : out.isOk = true) : Inv Hc s' := by
+  unfold step at h
+  split at h
+  · cases h; simp [LOut.isOk] at hok
+  · next hr =>
+    simp only at h
+    have hlt := refs_lt (by simpa using hr)
+    cases hc : replaceWith Hc (fuelOf s) s u (some n) with
+    | mk s1 res =>
+      rw [hc] at h
+      cases res with
+      | error e => simp [ofUnit] at h; obtain ⟨_, rfl⟩ := h; simp [LOut.isOk] at hok
+      | ok x =>
+        cases x
+        simp [ofUnit] at h; obtain ⟨rfl, _⟩ := h
+        exact replaceWith_inv_parent_some Hc hI (hlt u (by simp [LOp.refs])) (hlt n (by simp [LOp.refs]))
+          hpar hnd hacyc hc
+
 /-- the operations whose invariant preservation is proved -/
 def LOp.proved (s : LState) : LOp → Prop
-  | .new _ | .attach _ | .detach _ _ | .dup _ _ => True
-  | .replace u _ => s.parent u = none
-  | .rwith u new => s.parent u = none ∧ (match new with | none => True | some n => s.detached n = true)
+  | .new sp => (newObj sp).wf
+  | .attach _ | .detach _ _ | .dup _ _ => True
+  | .replace u ch => ch.wfFor (s.obj u)
+  | .rwith u new =>
+    (s.parent u = none ∧ (match new with | none => True | some n => s.detached n = true)) ∨
+    (∃ p n, s.parent u = some p ∧ new = some n ∧ s.detached n = true ∧ ¬ Desc s u p)
 
-instance (s : LState) (op : LOp) : Decidable (LOp.proved s op) := by
+/-- decidable up to the acyclicity side condition of `replace_with` (decided classically) -/
+noncomputable instance (s : LState) (op : LOp) : Decidable (LOp.proved s op) := by
   cases op <;> unfold LOp.proved <;> try infer_instance
-  next u new => cases new <;> infer_instance
+  next u new =>
+    have : Decidable (s.parent u = none ∧ (match new with | none => True | some n => s.detached n = true)) := by
+      cases new <;> infer_instance
+    have : Decidable (∃ p n, s.parent u = some p ∧ new = some n ∧ s.detached n = true ∧ ¬ Desc s u p) :=
+      Classical.propDecidable _
+    exact instDecidableOr
 
 /-- one step of a history, for the operations in `proved` -/
 theorem inv_step_partial {s s' : LState} {op : LOp} {out : LOut} (hI : Inv Hc s) (hp : LOp.proved s op)
     (h : step H Hc s op = (s', out)) (hok : out.isOk = true) : Inv Hc s' := by
   cases op with
-  | new sp => exact inv_step_new H Hc hI h hok
+  | new sp => exact inv_step_new H Hc hI hp h hok
   | attach u => exact inv_step_attach H Hc hI h hok
   | detach u os => exact inv_step_detach H Hc hI h hok
-  | replace u ch => exact inv_step_replace_partial H Hc hI hp h hok
+  | replace u ch => exact inv_step_replace H Hc hI hp h hok
   | rwith u n =>
-    refine inv_step_rwith_partial H Hc hI hp.1 ?_ h hok
-    intro m hm; subst hm; exact hp.2
+    rcases hp with hp | ⟨p, m, h1, h2, h3, h4⟩
+    · refine inv_step_rwith_partial H Hc hI hp.1 ?_ h hok
+      intro m hm; subst hm; exact hp.2
+    · subst h2
+      exact inv_step_rwith_parent_partial H Hc hI h1 h3 h4 h hok
   | dup u c => exact inv_step_dup H Hc hI h hok
 
 /-- a history all of whose steps returned and lie in the proved fragment -/
@@ -355,7 +432,7 @@ theorem parent_is_holder {s : LState} (hI : Inv Hc s) {u p : Nat} (hu : Att s u)
 /-- conversely the node stored at a position of an attached node reports that node as its parent -/
 theorem holder_is_parent {s : LState} (hI : Inv Hc s) {p : Nat} (hp : Att s p) {e : Nat × Str × Option Nat}
     (he : e ∈ (s.obj p).kidsPos) : s.parent e.1 = some p := by
-  obtain ⟨_, hpid, _, _⟩ := hI.down p hp e he
+  obtain ⟨_, hpid, _, _⟩ := hI.down' p hp e he
   unfold LState.parent; rw [hpid]; exact hp
 
 /-- `ancestors()`: the walk along `parent` -/
@@ -415,22 +492,6 @@ where
     | e :: er, (f, i, t) :: kr => e.2.1 = f ∧ e.2.2 = i ∧ Matches s e.1 t ∧ kidsMatch er kr
     | _, _ => False
 
-theorem insertBy_map {α β : Type} (g : α → β) (lt : β → β → Bool) (x : α) (l : List α) :
-    insertBy lt (g x) (l.map g) = (insertBy (fun a b => lt (g a) (g b)) x l).map g := by
-  induction l with
-  | nil => rfl
-  | cons y r ih =>
-    simp only [List.map_cons, insertBy]
-    split
-    · simp [ih]
-    · simp
-
-theorem sortBy_map {α β : Type} (g : α → β) (lt : β → β → Bool) (l : List α) :
-    sortBy lt (l.map g) = (sortBy (fun a b => lt (g a) (g b)) l).map g := by
-  induction l with
-  | nil => rfl
-  | cons y r ih => simp only [List.map_cons, sortBy, ih, insertBy_map]
-
 mutual
 /-- **content ids**: under the invariant the cached content id of an attached node equals the
 content id of an independently built equal tree (so every change below has propagated up) -/
@@ -438,8 +499,8 @@ theorem cid_eq_spec {s : LState} (hI : Inv Hc s) : ∀ (t : CTree) (u : Nat), At
     (s.obj u).cid = CTree.cid Hc t
   | .mk cls props kids, u, hu, hm => by
     obtain ⟨hc, hp, hk⟩ := hm
-    have hkids := kids_eq_spec hI kids (s.obj u).kidsPos (fun e he => (hI.down u hu e he).1) hk
-    rw [hI.cid u hu]
+    have hkids := kids_eq_spec hI kids (s.obj u).kidsPos (fun e he => (hI.down' u hu e he).1) hk
+    rw [hI.cid' u hu]
     unfold CTree.cid cidPre kidsText
     rw [hc, hp, ← hkids]
     congr 2
@@ -471,14 +532,14 @@ def hist : List LOp :=
   [.new (leaf "1"), .new (un 0), .detach 1 false, .attach 1, .dup 1 false, .replace 1 ⟨[], [], false⟩,
    .dup 3 true, .rwith 3 (some 6), .detach 4 true]
 
-def decGoodRun : ∀ (ops : List LOp) (s : LState), Decidable (GoodRun id id s ops)
+noncomputable def decGoodRun : ∀ (ops : List LOp) (s : LState), Decidable (GoodRun id id s ops)
   | [], _ => isTrue trivial
   | op :: r, s =>
     have := decGoodRun r (step id id s op).1
     inferInstanceAs (Decidable
       (LOp.proved s op ∧ (step id id s op).2.isOk = true ∧ GoodRun id id (step id id s op).1 r))
 
-instance (s : LState) (ops : List LOp) : Decidable (GoodRun id id s ops) := decGoodRun ops s
+noncomputable instance (s : LState) (ops : List LOp) : Decidable (GoodRun id id s ops) := decGoodRun ops s
 
 example : GoodRun id id init hist := by decide
 
@@ -486,7 +547,8 @@ theorem inv_hist : Inv id (st hist) := inv_run_init_partial id id hist (by decid
 
 example : Inv id init := inv_init id
 example : Inv id (step id id init (.new (leaf "1"))).1 :=
-  inv_step_new id id (s := init) (sp := leaf "1") (inv_init id) (out := outOf [] (.new (leaf "1"))) rfl (by decide)
+  inv_step_new id id (s := init) (sp := leaf "1") (inv_init id) (by decide) (out := outOf [] (.new (leaf "1"))) rfl
+    (by decide)
 example : Inv id (step id id (st (hist.take 3)) (.attach 1)).1 :=
   inv_step_attach id id (s := st (hist.take 3)) (u := 1) (inv_run_init_partial id id (hist.take 3) (by decide))
     (out := outOf (hist.take 3) (.attach 1)) rfl (by decide)
@@ -500,12 +562,30 @@ example : Inv id (step id id (st (hist.take 2)) (.dup 1 false)).1 :=
     (out := outOf (hist.take 2) (.dup 1 false)) rfl (by decide)
 example : Inv id (step id id (st (hist.take 2)) (.replace 1 ⟨[], [], false⟩)).1 :=
   inv_step_replace_partial id id (s := st (hist.take 2)) (u := 1) (ch := ⟨[], [], false⟩)
-    (inv_run_init_partial id id (hist.take 2) (by decide)) (by decide)
+    (inv_run_init_partial id id (hist.take 2) (by decide)) (by decide) (by decide)
     (out := outOf (hist.take 2) (.replace 1 ⟨[], [], false⟩)) rfl (by decide)
+-- replace of a CHILD (node 0 under node 1): the parent's field and content id are updated
+example : (st (hist.take 2)).parent 0 = some 1 := by decide
+example : Inv id (step id id (st (hist.take 2)) (.replace 0 ⟨[⟨"v".toList, "7".toList, true⟩], [], false⟩)).1 :=
+  inv_step_replace id id (s := st (hist.take 2)) (u := 0) (ch := ⟨[⟨"v".toList, "7".toList, true⟩], [], false⟩)
+    (inv_run_init_partial id id (hist.take 2) (by decide)) (by decide)
+    (out := outOf (hist.take 2) (.replace 0 ⟨[⟨"v".toList, "7".toList, true⟩], [], false⟩)) rfl (by decide)
+example : ((step id id (st (hist.take 2)) (.replace 0 ⟨[⟨"v".toList, "7".toList, true⟩], [], false⟩)).1.obj 1).cid ≠
+    ((st (hist.take 2)).obj 1).cid := by decide
 example : Inv id (step id id (st (hist.take 2)) (.rwith 1 none)).1 :=
   inv_step_rwith_partial id id (s := st (hist.take 2)) (u := 1) (new := none)
     (inv_run_init_partial id id (hist.take 2) (by decide)) (by decide)
     (by intro n h; cases h) (out := outOf (hist.take 2) (.rwith 1 none)) rfl (by decide)
+-- replace_with on a CHILD: leaf 0 under node 1 is replaced by the detached leaf 2
+def histP : List LOp := [.new (leaf "1"), .new (un 0), .new { leaf "2" with createDetached := true }]
+example : (st histP).parent 0 = some 1 ∧ (st histP).detached 2 = true := by decide
+example : Inv id (step id id (st histP) (.rwith 0 (some 2))).1 :=
+  inv_step_rwith_parent_partial id id (s := st histP) (u := 0) (p := 1) (n := 2)
+    (inv_run_init_partial id id histP (by decide)) (by decide) (by decide)
+    (fun h => by have := Desc.of_leaf (by decide) h; exact absurd this (by decide))
+    (out := outOf histP (.rwith 0 (some 2))) rfl (by decide)
+example : ((step id id (st histP) (.rwith 0 (some 2))).1.obj 1).kidList = [2] := by decide
+
 -- after the history: node 5 is attached, its parent is node 6 (the clone that replaced node 3) …
 example : Att (st hist) 5 ∧ (st hist).parent 5 = some 6 := by decide
 example := parent_is_holder id inv_hist (u := 5) (p := 6) (by decide) (by decide)
